@@ -35,7 +35,10 @@ public:
 };
 
 static const double KREP = 3e8, KADH = 2e8;
-static cell_ptr make_cell(const std::vector<double>& pos, const std::vector<unsigned>& tris, unsigned id, int type, unsigned frag_faces = 0, bool frag_node = false) {
+// `lid` is the cell's position in the list handed to the model, `id` its persistent identifier: after a division or a removal
+// the two differ, and the identifier of one cell can equal the position of another
+static cell_ptr make_cell(const std::vector<double>& pos, const std::vector<unsigned>& tris, unsigned lid, int type, unsigned frag_faces = 0, bool frag_node = false, long pid = -1) {
+    const unsigned id = pid < 0 ? lid : (unsigned)pid;
     auto ct = std::make_shared<cell_type_parameters>();
     ct->global_type_id_ = (short)type; ct->surface_coupling_max_curvature_ = 1e300; ct->bulk_modulus_ = 1.; ct->target_isoperimetric_ratio_ = 150.;
     for (int k = 0; k < 3; k++) { face_type_parameters ft; ft.face_type_global_id_ = (short)(type == 0 ? k : 3); ft.repulsion_strength_ = KREP; ft.adherence_strength_ = KADH; ct->add_face_type(ft); }
@@ -48,7 +51,7 @@ static cell_ptr make_cell(const std::vector<double>& pos, const std::vector<unsi
         default: c = std::make_shared<static_cell>(pos, tris, id, ct); break;
     }
     c->initialize_cell_properties(true);
-    c->set_local_id(id);
+    c->set_local_id(lid);
     if (frag_faces || frag_node) cell_tester::fragment(*c, frag_faces, frag_node);      // unused slots in the middle of the lists
 #if CONTACT_MODEL_INDEX == 1 || CONTACT_MODEL_INDEX == 2
     c->compute_node_curvature_and_normals();
@@ -119,7 +122,7 @@ int main(int argc, char** argv) {
                     else { auto d = cc["dims"].ivec(); m = shapes::box((int)d[0], (int)d[1], (int)d[2]); }
                     auto at = cc["at"].dvec();
                     for (size_t q = 0; q < m.nn(); q++) for (int a = 0; a < 3; a++) m.pos[3 * q + a] = u * (m.pos[3 * q + a] * cc["k"].d() + at[a]);
-                    dst.push_back(make_cell(m.pos, m.tris, (unsigned)i, (int)cc["type"].i(), cc.has("frag") ? (unsigned)cc["frag"].i() : 0u, cc.has("fragn") && cc["fragn"].boolean()));
+                    dst.push_back(make_cell(m.pos, m.tris, (unsigned)i, (int)cc["type"].i(), cc.has("frag") ? (unsigned)cc["frag"].i() : 0u, cc.has("fragn") && cc["fragn"].boolean(), cc.has("id") ? cc["id"].i() : -1L));
                 }
             }
             const double lmin = C["lmin"].d() * u, cut = C["cut"].d() * u;
